@@ -7,7 +7,7 @@ from ..pyutil import parents
 
 META = {
     'title': 'Lexicon specifiers and language codes select exactly the documented lexicons',
-    'technique': 'def-use non-interference inside the per-specifier loop; SQL shape (LIMIT => recency ORDER BY, GLOB predicate); error-path shape',
+    'technique': 'def-use non-interference inside the per-specifier loop; SQL shape (LIMIT => recency ORDER BY, GLOB predicate); error-path shape read off the effect summary of find_lexicons',
     'explanation': (
         'GLOB matching itself is SQLite semantics and is not decided. Decided: R1 specifier non-interference - inside the loop over '
         'lexicon.split() the SQL text and parameters of one specifier depend only on that specifier, lang and constants (a use of '
